@@ -209,6 +209,9 @@ def run(ctx):
     import execfam
     if ctx.prop == "C04":
         execfam.borrow_exec(ctx, ["args", "inputs", "dirvars"], {"calls"}, "exec-args")
+        # the variables of a subscription request (given, or defaulted there) are the variables its selection set is
+        # applied to the events with: registry histories judged on what is delivered
+        execfam.subscription_selections(ctx)
     else:
         execfam.borrow_exec(ctx, ["abstract", "absops", "forms", "dups", "fault0", "fault1"], {"data", "errors"}, "exec-shapes")
     ctx.exhaustive = True
